@@ -798,6 +798,20 @@ func TestVerifC06(t *testing.T) {
 		"minimize", "computeRuleClasses", "partitionStatesByAction", "refinePartitions")
 	kf := vNew("C06/minimize-final-states", "same grammars; only the class 'minimized parser stops early because a final state was merged' (known finding F17)", false, "minimize")
 	kfSeen := false
+	// State markers (Tables.Markers: the states generated parsers test with <marker>States[state],
+	// e.g. where error recovery may restart) are remapped by minimize together with the states. The
+	// two parsers run in lockstep, so the k-th state pushed by the minimized parser is the image of
+	// the k-th state pushed by the unminimized one: every marker that holds in the latter has to hold
+	// in the former. (Only this direction: a marked and an unmarked state may be merged.)
+	mkc := vNew("C06/minimize-markers", "same grammars, those with state markers: along every run compared by C06/minimize, each marker listing the state the unminimized parser enters also lists the state the minimized parser enters at the same step", false, "minimize")
+	inMarker := func(t *Tables, m, state int) bool {
+		for _, s := range t.Markers[m].States {
+			if s == state {
+				return true
+			}
+		}
+		return false
+	}
 	r := vNewRand(vSeed() + 17)
 	n := hCount(2500, 60000)
 	maxLen := hCount(5, 6)
@@ -836,10 +850,29 @@ func TestVerifC06(t *testing.T) {
 	outer:
 		for in := range hg.inputs {
 			for _, w := range strs {
-				a := plain.hRun(g, in, w, hRunOpts{classOf: class})
-				b := mini.hRun(g, in, w, hRunOpts{classOf: class})
+				var va, vb []int
+				a := plain.hRun(g, in, w, hRunOpts{classOf: class, visited: &va})
+				b := mini.hRun(g, in, w, hRunOpts{classOf: class, visited: &vb})
 				if a.bad != "" {
 					continue // the unminimized tables themselves misbehave: not this property
+				}
+				if len(plain.Markers) > 0 && len(plain.Markers) == len(mini.Markers) && mkc.NFail == 0 {
+					marked := false
+					for k := 0; k < len(va) && k < len(vb); k++ {
+						for m := range plain.Markers {
+							if inMarker(plain, m, va[k]) {
+								marked = true
+								if !inMarker(mini, m, vb[k]) {
+									mkc.Failf(desc, "input %d tokens %q, step %d: the unminimized parser enters state %d, which marker .%s lists (%v); the minimized parser enters state %d, which it does not list (%v)",
+										in, hStr(w), k+1, va[k], plain.Markers[m].Name, plain.Markers[m].States, vb[k], mini.Markers[m].States)
+								}
+							}
+						}
+					}
+					mkc.Case(marked)
+					if marked && mini.NumStates < plain.NumStates {
+						mkc.Sample(fmt.Sprintf("%s tokens %q", desc, hStr(w)))
+					}
 				}
 				if b.bad != "" || a.accept != b.accept || a.errAt != b.errAt || fmt.Sprint(a.events) != fmt.Sprint(b.events) {
 					note := ""
@@ -917,7 +950,7 @@ func TestVerifC06(t *testing.T) {
 		}
 	}
 	kf.Cases, kf.Nontrivial = ck.Cases, ck.Nontrivial
-	vWrite(t, nil, ck, kf, deep)
+	vWrite(t, nil, ck, kf, deep, mkc)
 }
 
 // ---------- C07 ----------
